@@ -245,14 +245,14 @@ impl Check for C10 {
         let n3 = n2 * ops * p;
         match tier {
             Tier::Quick => vec![
-                Phase::random("random-expressions", 300_000, 768).batch(1000).watchdog(5000),
+                Phase::random("random-expressions", 1_500_000, 768).batch(1000).watchdog(5000),
                 Phase::indexed("all-sequences-1-op", n1, true).batch(1000),
                 Phase::indexed("all-sequences-2-ops", n2, true).batch(5000),
                 Phase::indexed("all-sequences-3-ops", 0, true),
                 Phase::indexed("regression-sources", regression().len() as u64, true).batch(100),
             ],
             Tier::Thorough => vec![
-                Phase::random("random-expressions", 2_000_000, 768).batch(2000).watchdog(5000),
+                Phase::random("random-expressions", 10_000_000, 768).batch(2000).watchdog(5000),
                 Phase::indexed("all-sequences-1-op", n1, true).batch(1000),
                 Phase::indexed("all-sequences-2-ops", n2, true).batch(5000),
                 Phase::indexed("all-sequences-3-ops", n3, true).batch(20000),
